@@ -16,7 +16,7 @@ RULE = ('(a) TruncationMonitor on every depth-0 public UTPM call with D>1 while 
         'D\'=1 forward result against the program run on plain ndarrays; eigen/singular vectors only when the eigenvalues of A_0 are '
         'distinct; class = (call or program, D, shapes); non-trivial = some input coefficient of order >= D\' is non-zero')
 ASSUMPTIONS = ['the same operation on the truncated polynomial is the reference', 'eig is excluded (supports D<=2 only by its own assertion)']
-REQUIRED = ['truncation-shadow', 'program:forward', 'program:reverse', 'program:D1-equals-numpy', 'hostile:large-high-coefficients', 'pattern', 'kink']
+REQUIRED = ['truncation-shadow', 'program:forward', 'program:reverse', 'program:D1-equals-numpy', 'hostile:large-high-coefficients', 'pattern', 'kink', 'highD']
 
 _mon = None
 
@@ -56,6 +56,8 @@ def cases(tier, seed):
                 out.append({'kind': 'pattern', 'seed': case_seed('C12', seed, 'pattern', name, pat, D), 'params': {'fn': name, 'pattern': pat, 'D': D}})
     for i in range(12 if tier == 'quick' else 60):
         out.append({'kind': 'kink', 'seed': case_seed('C12', seed, 'kink', i), 'params': {'D': 3 + i % 3}})
+    for i, D in enumerate((33, 40) if tier == 'quick' else (32, 33, 36, 40, 48, 64, 65)):
+        out.append({'kind': 'highD', 'seed': case_seed('C12', seed, 'highD', D), 'params': {'D': D}})
     for i in range(24 if tier == 'quick' else 200):
         out.append({'kind': 'hostile', 'seed': case_seed('C12', seed, 'hostile', i), 'params': {'which': i % 6, 'D': 3 + i % 3}})
     return out
@@ -73,6 +75,8 @@ def run_case(ctx, case):
     rng = gen.rng_of(case)
     if case['kind'] == 'hostile':
         return _hostile(ctx, case['params'], rng)
+    if case['kind'] == 'highD':
+        return _highD(ctx, case['params'], rng)
     if case['kind'] == 'pattern':
         return _pattern(ctx, case['params'], rng)
     if case['kind'] == 'kink':
@@ -99,6 +103,22 @@ def _pattern(ctx, p, rng):
         ctx.ok('pattern', ('pattern', p['fn'], p['pattern'], p['D']))
 
 
+def _highD(ctx, p, rng):
+    """many coefficients (D >= 32): algorithm switches that depend on D must not change the low orders"""
+    D = p['D']
+    before = sum(ctx.violation_count.values())
+    a = rng.normal(size=(D, 1, 2)); b = rng.normal(size=(D, 1, 2)); b[0] = np.abs(b[0]) + 1.0; a[0] = np.abs(a[0]) + 1.0
+    X, Y = UTPM(a), UTPM(b)
+    for f in (lambda: X * Y, lambda: X / Y, lambda: X ** 3, lambda: algopy.exp(0.1 * X), lambda: algopy.log(Y), lambda: algopy.sqrt(Y), lambda: algopy.dot(X, Y),
+              lambda: algopy.square(X), lambda: algopy.sin(0.1 * X), lambda: 1.0 / Y):
+        try:
+            f()
+        except Exception:
+            ctx.skip('sut-raises:highD')
+    if sum(ctx.violation_count.values()) == before:
+        ctx.ok('highD', ('highD', D))
+
+
 def _kink(ctx, p, rng):
     """base points exactly on a kink (0 for abs/sign, ties for minimum/maximum, the bounds of clip, a zero of max): whatever
     convention the library uses there, low-order coefficients must not depend on the truncation degree"""
@@ -110,7 +130,8 @@ def _kink(ctx, p, rng):
         b = rng.normal(size=(D, P, 4)); b[0] = a[0]                     # ties at order 0
         X, Y = UTPM(a), UTPM(b)
         for f in (lambda: abs(X), lambda: X.fabs(), lambda: algopy.absolute(X), lambda: algopy.sign(X), lambda: algopy.minimum(X, Y), lambda: algopy.maximum(X, Y),
-                  lambda: algopy.special.botched_clip(0.0, 1.0, X), lambda: UTPM.max(X), lambda: X * X, lambda: algopy.square(X), lambda: X ** 2, lambda: X ** 3):
+                  lambda: algopy.special.botched_clip(0.0, 1.0, X), lambda: UTPM.max(X), lambda: X * X, lambda: algopy.square(X), lambda: X ** 2, lambda: X ** 3,
+                  lambda: X / Y, lambda: Y / X, lambda: X / X):          # 0/0 at the base point: the result (NaN) must not become finite for some D
             try:
                 f()
             except Exception:
@@ -200,11 +221,13 @@ def _sweeps(ctx, name, f, xs, D, P, rng):
             try:
                 cg.pullback([UTPM(ybar.copy())])
                 xbfull = [fx.xbar.data.copy() for fx in cg.independentFunctionList]
+                if not all(np.all(np.isfinite(xb)) for xb in xbfull) or max(np.max(np.abs(xb)) for xb in xbfull) > 1e8:
+                    rev = False; ctx.skip('out_of_domain:nonfinite-or-huge-adjoint')
             except Exception:
                 rev = False
         except Exception:
             ctx.skip('replay-raises:' + name); return
-        if not np.all(np.isfinite(yfull)):
+        if not np.all(np.isfinite(yfull)) or (yfull.size and np.max(np.abs(yfull)) > 1e8):
             ctx.skip('out_of_domain:nonfinite'); return
         for Dp in range(1, D):
             cg.pushforward([UTPM(x[:Dp].copy()) for x in xs])
